@@ -34,6 +34,19 @@ class StopRun(BaseException):
     pass
 
 
+# sensitivity runs only (tools/automutate.py): path of a flag file; the first shard that finds a violation creates it
+# and every shard stops at its next case. Never set by the registered commands.
+FAILFAST = os.environ.get("VP_FAILFAST_FLAG")
+
+
+def _failfast_hit():
+    if FAILFAST:
+        try:
+            Path(FAILFAST).touch()
+        except OSError:
+            pass
+
+
 def _quiet():
     warnings.simplefilter("ignore")
     logging.disable(logging.CRITICAL)
@@ -76,6 +89,8 @@ class State:
         """Run one case; returns the list of findings that are neither known nor excluded."""
         if self.deadline and time.time() > self.deadline:
             self.budget_exhausted = True
+            raise StopRun()
+        if FAILFAST and os.path.exists(FAILFAST):
             raise StopRun()
         ctx = Ctx(scratch=self.scratch)
         try:
@@ -153,7 +168,7 @@ def _hyp_shard(mod_id, tier, seed, shard, n_cases, known_keys, deadline):
     st = State(mod, known_keys)
     st.deadline = deadline
     st.scratch = _scratch_root()
-    shrink = getattr(mod, "SHRINK", {"quick": True, "thorough": True}).get(tier, True)
+    shrink = getattr(mod, "SHRINK", {"quick": True, "thorough": True}).get(tier, True) and not FAILFAST
     phases = [Phase.generate] + ([Phase.shrink] if shrink else [])
     strat = mod.strategy(tier)
     try:
@@ -196,6 +211,9 @@ def _hyp_shard(mod_id, tier, seed, shard, n_cases, known_keys, deadline):
                 st.failures[f.kind] = {"case": case, "msg": f.msg, "shard": shard, "hseed": hseed}
                 st.excluded.add(f.kind)
                 rnd += 1
+                if FAILFAST:
+                    _failfast_hit()
+                    break
     finally:
         shutil.rmtree(st.scratch, ignore_errors=True)
     return st.export()
@@ -214,6 +232,9 @@ def _enum_shard(mod_id, tier, desc, known_keys, deadline):
                 if f.kind not in st.failures:
                     st.failures[f.kind] = {"case": case, "msg": f.msg, "shard": "enum"}
                 st.excluded.add(f.kind)
+            if new and FAILFAST:
+                _failfast_hit()
+                break
     except (HarnessAbort, StopRun):
         pass
     finally:
@@ -232,6 +253,9 @@ def _replay_cases(mod_id, cases, known_keys):
             for f in new:
                 if f.kind not in st.failures:
                     st.failures[f.kind] = {"case": case, "msg": f.msg, "shard": "corpus"}
+            if new and FAILFAST:
+                _failfast_hit()
+                break
     except (HarnessAbort, StopRun):
         pass
     finally:
